@@ -72,7 +72,7 @@ def h_orig_cmdt(ex, prop, L, holds=(0,), interval=None, windows='sym'):
         if st['holds_left'] > 0:
             st['holds_left'] -= 1
             st['cleared'] = False
-            inject(w, n, tp22.PF_CM, tp22.cm_frame(tp22.CTS, st['session'], 0xFFFFFF, st['got'] + 1, 0, 0, pgn0))
+            inject(w, n, tp22.PF_CM, tp22.cm_frame(tp22.CTS, st['session'], 0xFFFFFF, ex.fresh_int('hold_next', 0, 0xFFFFFF), 0, 0, pgn0))
             w.after(ex.fresh_real('hold_gap', HOLD[0], HOLD[1]), send_cts, 'peer')
             return
         st['holds_left'] = None
